@@ -86,7 +86,7 @@ TextCellCheck(cell, c) ==
   ELSE IF c.t = "bytes" THEN (IF cell.b = c.b THEN "" ELSE "bytes differ")
   ELSE IF c.t = "date" THEN (IF ParseDate(cell.b) = c.v THEN "" ELSE "date text differs")
   ELSE IF c.t = "dt" THEN (IF ParseDateTime(cell.b) = c.v THEN "" ELSE "datetime text differs")
-  ELSE IF c.t = "time" THEN (IF ParseTime(cell.b) = c.v THEN "" ELSE "time text differs")
+  ELSE IF c.t = "time" THEN (IF ParseTime(cell.b) = c.v \/ ("alt" \in DOMAIN c /\ ParseTime(cell.b) = c.alt) THEN "" ELSE "time text differs")
   ELSE "unknown canonical kind"
 
 \* ---- binary protocol ----
@@ -149,7 +149,7 @@ BinMatch(d, c) ==
   ELSE IF c.t = "bytes" THEN d.t = "bytes" /\ d.b = c.b
   ELSE IF c.t = "date" THEN d.t = "dt" /\ d.v = c.v \o <<0, 0, 0, 0>>
   ELSE IF c.t = "dt" THEN d.t = "dt" /\ d.v = c.v
-  ELSE IF c.t = "time" THEN d.t = "time" /\ ~d.neg /\ d.v = c.v
+  ELSE IF c.t = "time" THEN d.t = "time" /\ ~d.neg /\ (d.v = c.v \/ ("alt" \in DOMAIN c /\ d.v = c.alt))
   ELSE FALSE
 
 \* protocol-level compatibility of a value class with a column type (C07):
@@ -157,7 +157,9 @@ BinMatch(d, c) ==
 \*   "refuse"   no faithful encoding exists: the write must be refused
 \*   "may"      neither demanded nor forbidden
 Compat(c, ty) ==
-  IF c.t = "int" THEN (IF ty \in IntCols THEN "carries" ELSE IF ty \in DateCols \cup {11} THEN "refuse" ELSE "may")
+  \* a MYSQL_TYPE_NULL column carries nothing but NULL (it has no value bytes at all)
+  IF ty = 6 THEN "refuse"
+  ELSE IF c.t = "int" THEN (IF ty \in IntCols THEN "carries" ELSE IF ty \in DateCols \cup {11} THEN "refuse" ELSE "may")
   ELSE IF c.t = "f32" THEN (IF ty \in {4, 5} THEN "carries" ELSE IF ty \in IntCols \cup DateCols \cup {11} THEN "refuse" ELSE "may")
   ELSE IF c.t = "f64" THEN (IF ty = 5 THEN "carries" ELSE IF ty \in IntCols \cup DateCols \cup {4, 11} THEN "refuse" ELSE "may")
   ELSE IF c.t = "bytes" THEN (IF ty \in StrCols THEN "carries" ELSE IF ty \in IntCols \cup DateCols \cup {4, 5, 11} THEN "refuse" ELSE "may")
